@@ -246,7 +246,64 @@ MANIFEST = {
     "text": "Generated-input search over patterns x versions x flags x dates x seven classes of --set-version targets, through "
             "`bumpver test`, `update --dry` and real `update`; validity is judged by an independent recogniser and order by "
             "packaging.version, and every rejected update must leave all files byte-identical.",
-    "note": "v2 patterns of grammar G only (legacy patterns are exercised by C20); the start version is the config value "
+    "note": "v2 patterns of grammar G; legacy patterns only for the full-match requirement (a valid greater version followed by "
+            "text that no legacy part can match); the start version is the config value "
             "(tag scopes: C09). Cannot prove absence.",
     "technique": "property-based testing (Hypothesis, grammar-decoded cases) with reference recogniser + PEP 440 order oracle",
 }
+
+
+# ------------------------------------------------------------------ legacy patterns: the same gate (trailing text)
+
+from checks import c20_legacy_patterns as _l  # noqa: E402
+from bumpver import v1version as _v1  # noqa: E402
+
+
+def build_legacy(d):
+    case = _l.build_b(d)
+    case["junk"] = d.choice(["~1", "~", ".x", " x", "+", ".5~", "~-beta"])
+    case["mode"] = d.choice(["test", "update-real"])
+    return case
+
+
+def check_legacy(case):
+    pattern = case["pattern"]
+    date = dt.date.fromisoformat(case["date"])
+    v = case["vals"]
+    vinfo = _l.make_vinfo(date, v["major"], v["minor"], v["patch"], v["bid"], v["tag"])
+    if _l.roundtrip(pattern, vinfo):
+        return discard("start-version-does-not-round-trip")
+    old = _v1.format_version(vinfo, pattern)
+    greater = _l.make_vinfo(min(date + dt.timedelta(days=400), dt.date(2099, 12, 31)), v["major"] + 1, v["minor"], v["patch"], "9999", v["tag"])
+    if _l.roundtrip(pattern, greater):
+        return discard("target-version-does-not-round-trip")
+    sv = _v1.format_version(greater, pattern) + case["junk"]  # '~' cannot be part of any legacy version
+    tmp = None
+    try:
+        if case["mode"] == "test":
+            args = ["test", old, pattern, "--set-version", sv]
+            res = bv.run(args, today=date)
+            before = after = None
+        else:
+            tmp = tempfile.mkdtemp(prefix="c01l_")
+            spec = {"current_version": old, "version_pattern": pattern, "files": [["README.md", ["version {version} of"]]]}
+            projgen.write_file(tmp, "bumpver.toml", projgen.toml_config(spec))
+            projgen.write_file(tmp, "README.md", "This is version %s of the demo.\n" % old)
+            before = projgen.snapshot(tmp)
+            args = ["update", "--no-fetch", "--set-version", sv]
+            res = bv.run(args, cwd=tmp, today=date)
+            after = projgen.snapshot(tmp)
+        detail = {"args": args, "pattern": pattern, "old": old, "res": res.summary()}
+        sig = {"mode": case["mode"], "legacy": True}
+        if res.exit == 0:
+            return viol("announced-version-does-not-match-pattern-in-full:legacy", sig, dict(detail, announced=res.new_version))
+        if before is not None and before != after:
+            return viol("nonzero-exit-but-files-changed", sig, dict(detail, changed=projgen.diff_snap(before, after)))
+        return ok(nt=True, classes=("legacy-rejected",))
+    finally:
+        if tmp:
+            shutil.rmtree(tmp, ignore_errors=True)
+
+
+PARTS.append(Part("legacy-gate-trailing-text", check=check_legacy, strategy=lambda: dp.cases(build_legacy, size=64),
+                  n={"quick": 6000, "thorough": 100000}, max_discard=0.3))
